@@ -100,6 +100,9 @@ func c10R3(r *Run, li *c10LaxInfo) {
 	// both sides are collected from the whole package, whatever file a declaration lives in
 	// package-level tables that remember what a pure function computed (rules_t8c10_memo.go)
 	memo, pure := c10MemoTables(r)
+	// the elements of a SEQUENCE OF are type-checked with the parameters they are decoded with (rules_t8c10_elem.go)
+	elem := c10ElementTyping(r, li)
+	_ = elem
 	res := ForkDiff(fork, up, nil, lax, memo, pure)
 	r.Pass("upstream", "-", "compared against "+res.UpstreamDir)
 	r.Floor("same-named functions compared", res.Functions, 70)
